@@ -6,7 +6,7 @@ from ..terms import const, eq, lt, le, bnot, band, bor, implies
 from ..genutil import Codes
 
 INFO = dict(
-    bounds=dict(quick="uniform sampling: symbolic key and symbolic domain bounds, n <= 4 points, d in {1,2}, 3 get_batch calls (across a reshuffle); grid sampling: count decided in QF_FP(binary64) for n < 4096 on 2 concrete domains per generator",
+    bounds=dict(quick="uniform sampling: symbolic key and symbolic domain bounds, n <= 4 points, d in {1,2}, 3 get_batch calls (across a reshuffle); the same with grid sampling (n = 3, 4; symbolic bounds) and with RAR-allocated stores (n = 4, 2 active); grid sampling: count decided in QF_FP(binary64) for n < 4096 on 2 concrete domains per generator",
                 thorough="uniform: n <= 8, 4 get_batch calls; grid count: 4 concrete domains per generator (incl. negative and non-unit boxes)"),
     outside=["the threefry bit stream (jax.random.uniform is replaced by minval + (maxval-minval)*U with 0 <= U < 1)",
              "grid sampling in dimension 2 with n not a perfect square (the constructor raises: it cannot store n points on a regular grid)",
